@@ -152,7 +152,7 @@ def coq_db(net, sigs, table):
                 vals = [int(v) for v in vals]
                 refs = clist(["(TJ, %s)" % cz(v) for v in vals]) if t == "pipe" else "[]"
                 rows.append("{| r_label := %s; r_refvals := %s; r_refs := %s; r_loose := []; r_std := []; "
-                            "r_loose_std := []; r_pay := 0 |}" % (cz(int(lab)), clist([cz(v) for v in vals]), refs))
+                            "r_loose_std := []; r_vals := []; r_pay := 0 |}" % (cz(int(lab)), clist([cz(v) for v in vals]), refs))
         tabs.append("(%s, %s)" % (cstr(t), clist(rows)))
     std = []
     for t, d in net.get("std_types", {}).items():
@@ -169,13 +169,34 @@ def view_after(net, sig):
     return clist(out)
 
 
+def new_row_values(net, sig, n_old):
+    """value columns (as the generated schema lists them, computed columns excluded) of the rows added by the call"""
+    df = net[sig.table]
+    out = []
+    for pos in range(n_old, len(df)):
+        cells = []
+        for col, k in sig.colsrc:
+            if k[0] == "derived":
+                continue
+            if col not in df.columns:
+                cells.append((col, "<missing>"))
+                continue
+            try:
+                cells.append((col, tsig.norm_value(df[col].iloc[pos])))
+            except Exception:  # noqa: BLE001
+                cells.append((col, "<unencodable %s>" % type(df[col].iloc[pos]).__name__))
+        out.append(clist(["(%s, %s)" % (cstr(c), cstr(v)) for c, v in cells]))
+    return clist(out)
+
+
 def coq_args(m):
     et = {"ju": "(Some TJ)", "pi": "(Some TP)"}.get(m.get("et", "ju"), "None")
     return ("{| a_index := %s; a_refvals := %s; a_et := %s; a_std := %s; a_reg_std := %s; a_pt_null := %s; "
-            "a_invalid := %s; a_late_bad := %s; a_pay := 0 |}" %
+            "a_invalid := %s; a_late_bad := %s; a_vals := %s; a_pay := 0 |}" %
             ("None" if m.get("index") is None else "(Some %s)" % cz(m["index"]), clist([cz(v) for v in m["refvals"]]),
              et, cstr(m.get("std", "")), cbool(m.get("reg_std", False)), cbool(m.get("pt_null", False)),
-             cbool(m.get("invalid", False)), cbool(m.get("late_bad", False))))
+             cbool(m.get("invalid", False)), cbool(m.get("late_bad", False)),
+             clist(["(%s, %s)" % (cstr(k), cstr(v)) for k, v in m.get("vals", [])])))
 
 
 # ----------------------------------------------------------------------------------------------- call plans
@@ -254,6 +275,16 @@ def model_view(sig, kw, n):
             st = kw[sig.std["param"]]
             m["std"] = st[i] if isinstance(st, (list, tuple)) else st
             m["reg_std"] = (not sig.std["checked"]) and ("poly_coefficents" in kw or "pressure_list" in kw)
+        # explicitly passed arguments that feed a value column, in canonical encoding
+        m["vals"] = []
+        feeding = {k[1] for _, k in sig.colsrc if k[0] in ("param", "bool")}
+        for p_, v_ in kw.items():
+            if p_ in feeding:
+                x_ = v_[i] if isinstance(v_, (list, tuple)) else v_
+                try:
+                    m["vals"].append((p_, tsig.norm_value(x_)))
+                except Exception:  # noqa: BLE001 - a malformed value: the call must be rejected anyway
+                    m["vals"].append((p_, "<unencodable>"))
         if sig.eg:
             def isnull(x):
                 x = x[i] if isinstance(x, (list, tuple)) else x
@@ -285,6 +316,14 @@ def plans(sig, net, rng):
     else:
         kw["index"] = free
     add("valid_index", kw, n)
+    # every optional value argument passed explicitly (values different from the defaults; bulk: one per row)
+    kw, n = valid_kwargs(sig, net, rng, n=3 if sig.bulk else None)
+    for p_, dflt in sig.params:
+        if p_ in kw or dflt == tsig.REQUIRED or p_ not in OPT_VALUES or (sig.eg and p_ == "type"):
+            continue
+        vals = OPT_VALUES[p_]
+        kw[p_] = [vals[(i + 1) % len(vals)] for i in range(n)] if sig.bulk else vals[1]
+    add("valid_all_optional", kw, n)
     if sig.fn == "create_pressure_controls":
         # plain lists: `controlled_junctions != from_junctions` is ONE bool, index[True] -> index[1]
         kw, n = valid_kwargs(sig, net, rng, n=1)
@@ -383,9 +422,9 @@ def plans(sig, net, rng):
     if sig.fn in LATE_BAD:
         kw, n = valid_kwargs(sig, net, rng, n=2 if sig.bulk else None)
         kw.update(copy.deepcopy(LATE_BAD[sig.fn]))
-        # create_junction rejects the malformed tuple by an explicit `raise`: late only while the translator
-        # finds that raise after the row write; once it precedes the write the fault is an ordinary rejection
-        if sig.fn == "create_junction" and not sig.late_raise:
+        # late only while the translator finds no evaluation of `geodata` (call / subscript) before the row write;
+        # once the geodata is validated / built first, the fault is an ordinary rejection
+        if sig.geodata_early:
             add("malformed_geodata", kw, n, invalid=True)
         else:
             add("malformed_geodata", kw, n, late_bad=True)
@@ -561,9 +600,10 @@ def run_plans(ctx, sigs):
                     call = "Single %s %s" % (name, coq_args(rows[0]))
                 nstd = len(net.std_types.get(sig.std["table"], {})) if sig.std else 0
                 cases.append("{| c_schema := %s; c_db := @DB@%s@DB@; c_call := %s; c_ok := %s; c_labels := %s; c_after := %s; "
-                             "c_std_after := %s |}" % (name, dbtxt, call, cbool(ok),
+                             "c_std_after := %s; c_new_vals := %s |}" % (name, dbtxt, call, cbool(ok),
                                                        clist([cz(int(x)) for x in ((ret if sig.bulk else [ret]) if ok and ret is not None else [])]),
-                                                       view_after(net, sig), cnat(nstd)))
+                                                       view_after(net, sig), cnat(nstd),
+                                                       new_row_values(net, sig, len(before["tables"][sig.table]["index"]))))
                 meta.append(replay)
     return cases, meta
 
@@ -656,7 +696,7 @@ def monitor_bulk_vs_fold(ctx, sigs, twins):
     import pandapipes as pp
     byname = {s.fn: s for s in sigs}
     nets = base_nets(ctx)[:3 if ctx.quick else 8]
-    variants = ["required_only", "all_optional", "scalar_broadcast", "p_only", "per_element_all"]
+    variants = ["required_only", "all_optional", "scalar_broadcast", "p_only", "per_element_all", "deprecated_override"]
     for (bn, tn), (net_name, build), variant in itertools.product(twins, nets, variants):
         b, t = byname[bn], byname[tn]
         net0 = build()
@@ -667,6 +707,12 @@ def monitor_bulk_vs_fold(ctx, sigs, twins):
             if not b.eg:
                 continue
             kw[b.eg["t"]] = None
+        if variant == "deprecated_override":
+            # the (deprecated, still accepted) per-call overrides of std-type values, with a LIST of std types
+            if not (b.std and b.std["checked"] and b.table == "pipe"):
+                continue
+            kw[b.std["param"]] = unsorted_types(net0, ctx.rng, n, "pipe")
+            kw["k_mm"], kw["u_w_per_m2k"] = 0.77, 3.3
         if variant == "per_element_all":
             # a list for EVERY per-element argument, std types included (>= 2 distinct types, not in sorted order)
             if b.std and b.std["param"] in kw:
